@@ -177,4 +177,45 @@ theorem loopPrevents_iff (opts : Options) (cc : CliConf) (sc : SrvConf) :
     loopPrevents opts cc sc = true ↔ (sc.loopPrev = 1 ∨ (sc.loopPrev = 255 ∧ opts.loopPrev = true)) ∧ cc.name = sc.name := by
   unfold loopPrevents; simp
 
+/-! ### the two decisions where `radsrv` takes them -/
+
+open Rsp.World in
+theorem freerq_sc (w : World) (o : Nat) : (freerq w o).servers = w.servers ∧ (freerq w o).clients = w.clients := by
+  unfold freerq
+  split
+  · exact ⟨rfl, rfl⟩
+  · split
+    · exact ⟨rfl, rfl⟩
+    · unfold setRq; exact ⟨rfl, rfl⟩
+
+open Rsp.World in
+theorem updRq_sc (w : World) (o : Nat) (f : Rq → Rq) : (updRq w o f).servers = w.servers ∧ (updRq w o f).clients = w.clients := by
+  unfold updRq; exact ⟨rfl, rfl⟩
+
+open Rsp.World in
+/-- **C13 (loop prevention, at the request).** when loop prevention applies to the chosen server the request is released and nothing
+    else happens: no slot of any server taken, nothing queued for any client -/
+theorem forward_loop_prevented (w : World) (o : Nat) (cc : CliConf) (m0 : Radmsg.Msg) (as3 : List Radmsg.Tlv) (ttlres : Int) (si : Nat) (s : Server)
+    (hs : getSrv w si = some s) (hl : loopPrevents w.opts cc s.conf = true) :
+    radsrvForward w o cc m0 as3 ttlres si = freerq w o ∧
+    (radsrvForward w o cc m0 as3 ttlres si).servers = w.servers ∧ (radsrvForward w o cc m0 as3 ttlres si).clients = w.clients := by
+  have h : radsrvForward w o cc m0 as3 ttlres si = freerq w o := by
+    unfold radsrvForward; simp only [hs, Option.getD, hl, if_true]
+  rw [h]
+  exact ⟨rfl, freerq_sc w o⟩
+
+attribute [local irreducible] World.radsrvRoute Rewrite.dorewrite World.respond in
+open Rsp.World in
+/-- **C13 (TTL used up, at the request).** a request whose TTL attribute - as the client block's rewriteIn leaves it - is 0 or would
+    become 0 (`checkttl` says 0) is not routed at all: it is released, no server and no reply queue touched -/
+theorem rewrite_ttl_exceeded (w : World) (o : Nat) (cc : CliConf) (m0 : Radmsg.Msg)
+    (hok : cc.rwIn.isSome = true → (Rewrite.dorewrite w.rx cc.rwIn m0.attrs).ok = true)
+    (ht : (checkttl w.opts.ttlType (if cc.rwIn.isSome then (Rewrite.dorewrite w.rx cc.rwIn m0.attrs).attrs else m0.attrs)).1 = 0) :
+    (radsrvRewrite w o cc m0).servers = w.servers ∧ (radsrvRewrite w o cc m0).clients = w.clients := by
+  unfold radsrvRewrite
+  have h1 : ¬ (cc.rwIn.isSome = true ∧ (!(Rewrite.dorewrite w.rx cc.rwIn m0.attrs).ok) = true) := by
+    intro ⟨a, b⟩; rw [hok a] at b; exact Bool.noConfusion b
+  simp only [h1, if_false, ht, if_true]
+  exact ⟨(freerq_sc _ o).1.trans (updRq_sc w o _).1, (freerq_sc _ o).2.trans (updRq_sc w o _).2⟩
+
 end Rsp.Props.C13
